@@ -603,4 +603,15 @@ Proof.
   eexists. eexists. split; [vm_compute; reflexivity|]. split; [vm_compute; reflexivity|].
   split; vm_compute; reflexivity.
 Qed.
+
+(* open known finding recorded-within-gate-tolerance: own time 0.5+5e-11, dt multiple 0.5 *)
+Definition w_gate_q := 0x1.000000006df38p-1.   (* 0.50000000005 *)
+
+Lemma gate_tolerance_witness_float :
+  forall mps, exists st,
+    run_config float_arith float_floor w_tolb w_tol0 w_tolu mps 100 10 [Some [w_gate_q]] (Some [1]) = Ok st /\
+    recorded_times (Ok st) 0 = [0.5; w_gate_q].
+Proof.
+  intros [|]; eexists; (split; vm_compute; reflexivity).
+Qed.
 End FloatWitness.
